@@ -1,6 +1,6 @@
 //! Definition Use Analysis
 
-use crate::analysis::{reaching_definitions, LocationSet};
+use crate::analysis::{use_def, LocationSet};
 use crate::il;
 use crate::Error;
 use std::collections::HashMap;
@@ -10,58 +10,15 @@ use std::collections::HashMap;
 pub fn def_use(
     function: &il::Function,
 ) -> Result<HashMap<il::ProgramLocation, LocationSet>, Error> {
-    let rd = reaching_definitions::reaching_definitions(function)?;
+    // Definition-use chains are the inverse relation of use-definition chains
+    let ud = use_def(function)?;
 
     let mut du: HashMap<il::ProgramLocation, LocationSet> = HashMap::new();
 
-    for location in rd.keys() {
+    for (location, defs) in &ud {
         du.entry(location.clone()).or_default();
-        match location.function_location().apply(function).unwrap() {
-            il::RefFunctionLocation::Instruction(_, instruction) => instruction
-                .operation()
-                .scalars_read()
-                .into_iter()
-                .for_each(|scalar_read| {
-                    rd[location].locations().iter().for_each(|rd| {
-                        rd.function_location()
-                            .apply(function)
-                            .unwrap()
-                            .instruction()
-                            .unwrap()
-                            .operation()
-                            .scalars_written()
-                            .into_iter()
-                            .for_each(|scalar_written| {
-                                if scalar_written == scalar_read {
-                                    du.entry(rd.clone()).or_default().insert(location.clone());
-                                }
-                            })
-                    })
-                }),
-            il::RefFunctionLocation::Edge(edge) => {
-                if let Some(condition) = edge.condition() {
-                    condition.scalars().into_iter().for_each(|scalar_read| {
-                        rd[location].locations().iter().for_each(|rd| {
-                            if let Some(scalars_written) = rd
-                                .function_location()
-                                .apply(function)
-                                .unwrap()
-                                .instruction()
-                                .unwrap()
-                                .operation()
-                                .scalars_written()
-                            {
-                                scalars_written.into_iter().for_each(|scalar_written| {
-                                    if scalar_written == scalar_read {
-                                        du.entry(rd.clone()).or_default().insert(location.clone());
-                                    }
-                                })
-                            }
-                        })
-                    })
-                }
-            }
-            il::RefFunctionLocation::EmptyBlock(_) => {}
+        for def in defs.locations() {
+            du.entry(def.clone()).or_default().insert(location.clone());
         }
     }
 
